@@ -74,6 +74,18 @@ def mix4 {β : Type} (g : Mat K) (i j i' j' : Nat) (X : Nat → β → K) : Nat 
     else if k = j' then g 3 0 * X i b + g 3 1 * X j b + g 3 2 * X i' b + g 3 3 * X j' b
     else X k b
 
+/-- evaluation strategy of the driver: tabulate the `m × m` corner of a matrix (extensionally the identity,
+`freeze_eq`), so that the nested closures of a long fold are not re-evaluated per entry -/
+def freeze {K : Type} (m : Nat) (X : Mat K) : Mat K :=
+  let arr : Array (Array K) := Array.ofFn (n := m) fun p => Array.ofFn (n := m) fun q => X p.1 q.1
+  fun i j => if h : i < m ∧ j < m then
+      (arr[i]'(by simp [arr]; exact h.1))[j]'(by simp [arr]; exact h.2)
+    else X i j
+
+def freezeV {K : Type} (m : Nat) (r : Nat → K) : Nat → K :=
+  let arr : Array K := Array.ofFn (n := m) fun p => r p.1
+  fun i => if h : i < m then arr[i]'(by simp [arr]; exact h) else r i
+
 def asCol (r : Nat → K) : Nat → Unit → K := fun k _ => r k
 def ofCol (X : Nat → Unit → K) : Nat → K := fun k => X k ()
 
@@ -160,16 +172,26 @@ structure GUOut (K : Type) where
 def isIdent [DecidableEq K] (m : Nat) (S : Mat K) : Bool :=
   (List.range m).all fun i => (List.range m).all fun j => S i j = ident i j
 
-/-- `GaussianUnitary.compile(seq, registers)` -/
-def compileGU [DecidableEq K] (registers : List Nat) (cmds : List (GCmd K)) : GUOut K :=
+/-- `GaussianUnitary.compile(seq, registers)`; `norm` is applied to the accumulator after every iteration
+(identity in `compileGU`, tabulation in `compileGUFast`) -/
+def compileGUWith [DecidableEq K] (norm : Nat → Net K → Net K) (registers : List Nat)
+    (cmds : List (GCmd K)) : GUOut K :=
   let used := usedModes cmds
   let n := used.length
-  let net : Net K := cmds.foldl (stepGU (dictIdx used) n) ({ S := ident, r := fun _ => 0 } : Net K)
+  let net : Net K := cmds.foldl (fun a c => norm n (stepGU (dictIdx used) n a c))
+    ({ S := ident, r := fun _ => 0 } : Net K)
   let regs := ordReg registers used
   { n := n, regs := regs, S := net.S, r := net.r,
     hasGT := !isIdent (2 * n) net.S,
     dgates := (List.range regs.length).filterMap fun i =>
       if net.r i = 0 ∧ net.r (i + n) = 0 then none else some (regs.getD i 0, net.r i, net.r (i + n)) }
+
+def compileGU [DecidableEq K] (registers : List Nat) (cmds : List (GCmd K)) : GUOut K :=
+  compileGUWith (fun _ a => a) registers cmds
+
+/-- what the driver runs (`compileGUFast = compileGU`, proved) -/
+def compileGUFast [DecidableEq K] (registers : List Nat) (cmds : List (GCmd K)) : GUOut K :=
+  compileGUWith (fun n a => { S := freeze (2 * n) a.S, r := freezeV (2 * n) a.r }) registers cmds
 
 end gu
 
@@ -209,10 +231,17 @@ structure POut (K : Type) where
   T : Mat K
 
 /-- `Passive.compile(seq, registers)`: one `PassiveChannel(T)` on `ord_reg` -/
-def compileP (registers : List Nat) (cmds : List (PCmd K)) : POut K :=
+def compilePWith (norm : Nat → Mat K → Mat K) (registers : List Nat) (cmds : List (PCmd K)) : POut K :=
   let used := usedModesP cmds
   let n := used.length
-  { n := n, regs := ordReg registers used, T := cmds.foldl (stepP (dictIdx used) n) ident }
+  { n := n, regs := ordReg registers used,
+    T := cmds.foldl (fun T c => norm n (stepP (dictIdx used) n T c)) ident }
+
+def compileP (registers : List Nat) (cmds : List (PCmd K)) : POut K :=
+  compilePWith (fun _ T => T) registers cmds
+
+def compilePFast (registers : List Nat) (cmds : List (PCmd K)) : POut K :=
+  compilePWith freeze registers cmds
 
 end passive
 
